@@ -4,6 +4,8 @@ pub fn run(id: &str, tier: &str) -> i32 {
     match id {
         "C01" => server_family::check_c01(tier),
         "C02" => server_family::check_c02(tier),
+        "C08" => server_family::check_c08(tier),
+        "C17" => server_family::check_c17(tier),
         _ => {
             eprintln!("unknown or unimplemented property {id}");
             2
